@@ -23,6 +23,9 @@ GEN_MODULES = [("GenCpc",
                                    "update_windowed", "move_window", "refresh_kxp", "build_bit_matrix"]}),
                ("GenCpcPhase", ["cpc/compression.rs"], ["LIT_determine_pseudo_phase"],
                 {"cpc/compression.rs": ["determine_pseudo_phase"]}),
+               ("GenCpcSer", ["cpc/serialization.rs"],
+                ["SERIAL_VERSION", "FLAG_COMPRESSED", "FLAG_HAS_HIP", "FLAG_HAS_TABLE", "FLAG_HAS_WINDOW",
+                 "LIT_make_preamble_ints"], {"cpc/serialization.rs": ["make_preamble_ints"]}),
                ("GenCpcTables", ["cpc/compression_data.rs"],
                 ["LENGTH_LIMITED_UNARY_ENCODING_TABLE65", "LENGTH_LIMITED_UNARY_DECODING_TABLE65",
                  "COLUMN_PERMUTATIONS_FOR_ENCODING", "COLUMN_PERMUTATIONS_FOR_DECODING",
@@ -242,6 +245,12 @@ def gen_case(rng, cid, tier, kind, lgk):
     elif kind == "hashed":
         n = rng.choice([1, k // 16, k // 2, 2 * k, 5 * k]) if lgk <= 10 else rng.choice([k // 16, k // 2, 2 * k])
         stream_hashed(b, rng, max(1, n))
+    elif kind == "hashed_long":         # plain updates only, long enough to cross every flavor and many window moves
+        b.cost_budget *= 20
+        n = {4: 100000, 5: 60000, 6: 40000, 7: 30000}.get(lgk, 20000)
+        base = rng.getrandbits(62)
+        for i in range(n):
+            b.item(base + i)
     elif kind == "rtl":
         stream_right_to_left(b, rng, rng.choice([1, 3, 12, 24]))
         stream_random(b, rng, k, boost=0.2)
@@ -279,6 +288,7 @@ def plan(tier):
         for lgk in (4, 5, 6, 7, 8, 10):
             p.append(("rtl", lgk))
         p += [("random", 4), ("random", 5), ("hashed", 4), ("hashed", 6)]
+        p += [("hashed_long", 4), ("hashed_long", 5), ("hashed_long", 6), ("hashed_long", 7)]
     else:
         for rep in range(6):
             for lgk in (4, 4, 5, 5, 6, 6, 7, 8):
@@ -292,6 +302,9 @@ def plan(tier):
                 p.append(("rtl", lgk))
         for lgk in (13, 14, 16):
             p.append(("hashed", lgk))
+        for rep in range(3):
+            for lgk in (4, 5, 6, 7):
+                p.append(("hashed_long", lgk))
         for rep in range(4):
             p += [("sparse_big", 21), ("sparse_big", 26)]
     return p
